@@ -222,7 +222,7 @@ pub fn observe_opts(inst: &mut Inst, u: &Universe, mode: ObsMode, with_traces: b
     }
     // blocks with many transactions: the indices around the end and around one-byte boundaries
     for (h, c) in big_blocks {
-        for i in [c - 1, c, 254, 255, 256, 257] {
+        for i in [c - 1, c, 254, 255, 256, 257, 1023, 1024, 1025] {
             if i >= 3 && i <= c {
                 q(inst, "eth_getTransactionByBlockNumberAndIndex", json!([h, i]));
             }
